@@ -15,7 +15,7 @@ func init() {
 		Explanation: "Decides the per-table isolation and batching mechanics of both store back-ends: (R1) table registry — every storage.Table constant has its own name and its own distinct key prefix (decided by evaluating Prefix()/String() decision tables on every constant), and the RocksDB column-family name and option lists have one entry per constant in constant order (handles are indexed by the constant); " +
 			"(R2) B+tree prefix discipline — every key handed to the tree is prefix‖key, every key handed back has the prefix removed, and inside every tree-iteration callback an item reaches the result only under a comparison that involves the table's prefix; (R3) every RocksDB store method uses the handle indexed by its own table argument; " +
 			"(R4) one write batch per Mutate, handles released; (R5) both back-ends signal absence with storage.ErrKeyNotFound, and absence is decided by nil-ness of the value, not by its length.",
-		Added:       "Also (R4) every batch handed to db.Write is created in the same call; (R7) keys/values are copied out of native slices into buffers sized by the same slice.",
+		Added:       "Also (R4) every batch handed to db.Write is created in the same call; (R7) keys/values are copied out of native slices into buffers sized by the same slice. Third round: (R4) a reader hands out newly allocated pairs with their own key/value (never recycling the ones found in the caller's buffer) and reports an error only with an empty chunk.",
 		Assumptions: []string{"google/btree iterates in key order; RocksDB column families are isolated"},
 		Declined:    "equivalence with a map model over all operation sequences; durability across reopen.",
 	}, runC14)
@@ -122,6 +122,9 @@ func runC14(c *Ctx) {
 	nativeSliceCopies(c, "R7", []string{"storage/rocks"})
 	freshWriteBatches(c, "R4", []string{"storage/rocks"})
 	readerHandsOutFreshPairs(c, "R4")
+	memoryMutateIsAllOrNothing(c, "R4")
+	readsConsultTheStore(c, "R5")
+	noPrefixExtractor(c, "R3")
 	readerErrOnlyWithEmptyChunk(c, "R4")
 }
 
@@ -177,11 +180,16 @@ func c14Bplus(c *Ctx) {
 			}
 		})
 		// (c) iteration callbacks
-		if fn.Parent() == nil || fn.Signature.Params().Len() != 1 || !namedIs(fn.Signature.Params().At(0).Type(), "github.com/google/btree", "Item") {
+		// a closure, or (after "closure → small struct with a method") a method used as the callback
+		if fn.Signature.Params().Len() != 1 || !namedIs(fn.Signature.Params().At(0).Type(), "github.com/google/btree", "Item") || fn.Signature.Results().Len() != 1 || fn.Synthetic != "" {
 			continue
 		}
+		if fn.Parent() == nil && (fn.Object() == nil || fn.Object().Exported()) {
+			continue // KVItem.Less and the like are not iteration callbacks
+		}
 		nCB++
-		isItem := func(t *Term) bool { return t.Has(func(x *Term) bool { return x.IsParam(fn, 0) }) }
+		itemI := len(fn.Params) - 1
+		isItem := func(t *Term) bool { return t.Has(func(x *Term) bool { return x.IsParam(fn, itemI) }) }
 		sinks := 0
 		bad := 0
 		eachInstr(fn, func(in ssa.Instruction) {
@@ -282,18 +290,14 @@ func c14Absence(c *Ctx) {
 			fn := p.MustMethod(be.pkg, be.typ, mname)
 			found := false
 			var why []string
-			for _, b := range fn.Blocks {
-				ret, ok := b.Instrs[len(b.Instrs)-1].(*ssa.Return)
-				if !ok {
-					continue
-				}
-				et := p.TermOf(RetVal(ret, len(ret.Results)-1))
+			rg := p.RegionOf(fn, 3)
+			for _, rc := range rg.ReturnCases(fn.Signature.Results().Len() - 1) {
+				et := rc.T
 				if !(et.Op == "global" && strings.HasSuffix(et.Name, "ErrKeyNotFound")) {
 					continue
 				}
 				found = true
-				cs := p.CondsAt(b)
-				for _, k := range cs {
+				for _, k := range rc.Conds {
 					if k.Atom.Has(func(x *Term) bool { return x.Op == "builtin" && x.Name == "len" }) {
 						why = append(why, "absence is decided by "+k.String()+": a key whose stored value is empty would be reported missing by point reads while scans still list it")
 					}
